@@ -3,6 +3,7 @@ package broker
 import (
 	"encoding/json"
 	"fmt"
+	"strings"
 
 	"verif/engine/explore"
 	"verif/harness/core"
@@ -63,4 +64,77 @@ func c02client(c *core.Ctx) {
 			}
 		}
 	}
+	c02clientBurst(c)
+}
+
+// c02clientBurst: many inbound QoS 2 exchanges open at once in the client role
+// (every count 1..36, so the inbound queue is exactly full at 16 and 32 and grows
+// at 17 and 33), released in three orders.
+func c02clientBurst(c *core.Ctx) {
+	if c.Replay != nil && !strings.HasPrefix(c.Replay.Scenario, "client-burst") {
+		return
+	}
+	n := 0
+	for inflight := 1; inflight <= 36; inflight++ {
+		for _, order := range []string{"fifo", "lifo", "rot5"} {
+			n++
+			name := fmt.Sprintf("client-burst: %d QoS 2 exchanges in flight, released %s", inflight, order)
+			if c.Replay != nil {
+				if c.Replay.Scenario != name {
+					continue
+				}
+			} else {
+				if c.NShards > 1 && n%c.NShards != c.Shard {
+					continue
+				}
+				if !c.Thorough() && (inflight > 33 || (inflight < 14 && inflight%4 != 0)) {
+					continue
+				}
+			}
+			if c.Expired() || c.HasViolation() {
+				return
+			}
+			all := []cop{{kind: "api:sub", filters: []string{"t/+"}, qoss: []byte{2}}, {kind: "srv:suback"}}
+			hist := []int{0, 1}
+			for i := 0; i < inflight; i++ {
+				all = append(all, cop{kind: "srv:pub", topic: "t/a", qos: 2, id: uint16(100 + i), payload: fmt.Sprintf("m-%d", i)})
+				hist = append(hist, len(all)-1)
+			}
+			idx := make([]int, inflight)
+			for i := range idx {
+				idx[i] = i
+			}
+			switch order {
+			case "lifo":
+				for a, b := 0, len(idx)-1; a < b; a, b = a+1, b-1 {
+					idx[a], idx[b] = idx[b], idx[a]
+				}
+			case "rot5":
+				k := 5 % len(idx)
+				idx = append(idx[k:], idx[:k]...)
+			}
+			for _, i := range idx {
+				all = append(all, cop{kind: "srv:pubrel", id: uint16(100 + i)})
+				hist = append(hist, len(all)-1)
+			}
+			v, _, steps := runDispatch(all, hist, c.Replay != nil)
+			if c.Replay != nil {
+				fmt.Println("replay:", name, "\n  violation:", v)
+				c.Rep.Scenarios++
+				return
+			}
+			c.Rep.Executions++
+			c.Rep.Evaluations++
+			c.Rep.States++
+			c.Rep.Nontrivial++
+			c.Rep.Transitions += int64(steps)
+			if v != "" {
+				if c.Violate("C02 client-burst :: "+violClass(v), core.Replay{Scenario: name, Message: v}) {
+					return
+				}
+			}
+		}
+	}
+	c.Rep.Scenarios++
+	c.Rep.Sample(map[string]interface{}{"search": "client-burst", "in_flight": "1..36 (quick: 4,8,12,14..33)", "orders": []string{"fifo", "lifo", "rot5"}})
 }
